@@ -321,9 +321,11 @@ class Crash:
     def __init__(self, kind, san, frames, top, report):
         self.kind, self.san, self.frames, self.top, self.report = kind, san, frames, top, report
 
+    prefix = ""
+
     @property
     def key(self):
-        return "%s:%s" % (self.kind, short_name(self.top[0]) if self.top else "no-utap-frame:" + self.san.split(" ")[0])
+        return self.prefix + "%s:%s" % (self.kind, short_name(self.top[0]) if self.top else "no-utap-frame:" + self.san.split(" ")[0])
 
 
 def sym_frames(runner, rep):
@@ -767,6 +769,9 @@ DEEP = {
     "garbage_tokens": ("part", "S_DECLARATION", "doc", "", lambda n: "int a; " + "} ) ] " * n),
     "error_semicolons": ("part", "S_DECLARATION", "doc", "", lambda n: "int ; " * n),
     "chan_priority_chain": ("part", "S_DECLARATION", "doc", "", lambda n: "chan c; chan priority " + "c<" * n + "c;"),
+    # nested calls: every level must be checked once (a checker that re-checks arguments is exponential in the depth)
+    "call_nest": ("part", "S_DECLARATION", "doc", "", lambda n: "int f(int x){return x;} int v = " + "f(" * n + "1" + ")" * n + ";"),
+    "call_nest_args": ("part", "S_DECLARATION", "doc", "", lambda n: "int f(int x,int y){return x;} int v = " + "f(1," * n + "1" + ")" * n + ";"),
     "system_list": ("xta", "-", "doc", "", lambda n: "process P(){state A;init A;} system P" + ",P" * n + ";"),
     "system_priority": ("xta", "-", "doc", "", lambda n: "process P(){state A;init A;} system P" + "<P" * n + ";"),
     "xta_states": ("xta", "-", "doc", "", lambda n: "process P(){state " + ",".join("A%d" % k for k in range(n + 1)) + ";init A0;} system P;"),
@@ -828,6 +833,8 @@ def deep_sizes(name, thorough):
     unit = max(1.0, len(DEEP[name][4](200)) / 200.0)
     pretty = DEEP[name][2] == "pretty"
     sizes = {100, 1000}
+    if name.startswith("call_nest"):
+        sizes |= {10, 20, 30, 40, 60}      # beyond about 90 levels the parser gives up, so exponential checking shows only below that
     for n in deep_triple(name, thorough):
         sizes |= {n, 2 * n, 4 * n}
     if pretty:
@@ -1086,6 +1093,25 @@ def build_stream(ctx, log):
             for n in deep_sizes(name, T)[1:4:2]:
                 jobs.append(deep_job(name, n, ctx_model, 0))
 
+    # ---- (f) a call after an earlier call that ended at an arbitrary point -----------------------------------
+    # the parser and the lexer keep file-scope state (`types`, `rootTransId`, the start condition, the position counter): a parse that
+    # ends inside a production must not leave anything behind that makes the NEXT call of the process unsafe
+    probe = (b"const int N = 3; typedef int[0,N-1] id_t;\nint buf[N], head, tail; int grid[id_t][2]; /* c */ clock z;\n"
+             b"process P(id_t i, int &r[2]) { state A, B, C; init A; trans A -> B { guard z > 1 && buf[i] == head; assign buf[i] = 1, z = 0; }, "
+             b"-> C { assign tail = 2; }, B -> A { }, -> C { }; }\nint m[2]; Q = P(1, m);\nsystem Q;")
+    probe2 = b"int b[2] = {0, 0};\nprocess P(int &a[2]) { state s; init s; }\nQ = P(b);\nsystem Q;"
+    earlier = [b"typedef int[0,3] id_t;\nint m[id_t][3]; int k[2][id_t]; /* note */ int w;",
+               b"process Q() { state A, B, C; init A; trans A -> B { guard 1 > 0; }, -> C { assign w = 1; }, B -> C { }; } // end\nsystem Q;",
+               b"int f(int a[2], int b) { int loc[3]; for (i : int[0,2]) { loc[i] = a[0] /* c */ + b; } return loc[0]; }",
+               b"struct { int u[2]; int v; } s = { {1, 2}, 3 }; int x = (1 ? 2 : 3);"]
+    for t in earlier:
+        cuts = list(range(1, len(t) + 1))      # every cut: the interesting ones are few and specific (inside a dimension list, a chain ...)
+        for c in cuts:
+            # the earlier text ends there (end of input inside a production), or goes on after a stray `;` (error recovery abandons the production)
+            for form, e in (("eof", t[:c]), ("recover", t[:c] + b";\nint zz9;\nprocess R9() { state s; init s; }\nsystem R9;")):
+                for pi, pr in enumerate((probe, probe2)):
+                    jobs.append(Job("after-abort", "xta", 1, "doc", "-", e, pr, tag="%s@%d/p%d" % (form, c, pi)))
+
     # ---- de-duplicate, drop `import` ----------------------------------------------------------------------
     out, seen = [], set()
     dropped = 0
@@ -1233,6 +1259,10 @@ def run_stream(ctx, b):
                     outcomes["oom(ignored)"] = outcomes.get("oom(ignored)", 0) + 1
                     continue
                 outcomes[cr.kind] = outcomes.get(cr.kind, 0) + 1
+                if j.family == "after-abort":
+                    # the input itself is a fixed accepted model: the failure needs the EARLIER call of the same process, which makes it a
+                    # different defect from one with the same crash site that a single input triggers
+                    cr.prefix = "after-earlier-call:"
                 by_key.setdefault(cr.key, []).append((len(j.input) + len(j.ctx), i, cr))
         # -- super-linear growth (n, 2n, 4n) ----------------------------------------------------------------
         tag_idx = {j.tag: i for i, j in enumerate(jobs) if j.family == "deep" and j.newxta == 1}
